@@ -23,8 +23,8 @@ CORPUS = os.path.join(VERIF, "corpus", "C14")
 # region (alarms attributed, logged as a note) and kept out of probes() until the coordinator lists it
 CANDIDATES = (L.R_CSR8, L.R_LITTLE, L.R_AXIL_RD)
 
-QUICK = {"random_socs": 4, "mem": 600, "export": 500, "max_regs": 14}
-THOROUGH = {"random_socs": 90, "mem": 8000, "export": 6000, "max_regs": None}
+QUICK = {"random_socs": 7, "mem": 600, "export": 500, "max_regs": 14, "sweeps": 6, "verdicts": 40, "irqs": 12}
+THOROUGH = {"random_socs": 110, "mem": 8000, "export": 6000, "max_regs": None, "sweeps": 60, "verdicts": 400, "irqs": 200}
 
 
 class Dis:
@@ -51,7 +51,8 @@ def grid(rng):
         dict(bus="wishbone", bus_dw=32, ic="shared", csr_dw=32, paging=0x800, ordering="big", csr_aw=14, csr_origin=0),
         dict(bus="wishbone", bus_dw=32, ic="crossbar", csr_dw=32, paging=0x400, ordering="big", csr_aw=15, csr_origin=0xf0000000),
         dict(bus="wishbone", bus_dw=64, ic="shared", csr_dw=32, paging=0x1000, ordering="big", csr_aw=14, csr_origin=0x82000000),
-        dict(bus="wishbone", bus_dw=64, ic="crossbar", csr_dw=32, paging=0x800, ordering="big", csr_aw=16),
+        dict(bus="wishbone", bus_dw=64, ic="crossbar", csr_dw=32, paging=0x800, ordering="big", csr_aw=16, bus_aw=64,
+             csr_origin=0x200000000),
         dict(bus="axi-lite", bus_dw=32, ic="shared", csr_dw=32, paging=0x800, ordering="big", csr_aw=14),
         dict(bus="axi-lite", bus_dw=32, ic="crossbar", csr_dw=32, paging=0x1000, ordering="big", csr_aw=15),
         dict(bus="axi", bus_dw=32, ic="shared", csr_dw=32, paging=0x400, ordering="big", csr_aw=14, max_regs=3),
@@ -74,6 +75,8 @@ def grid(rng):
 def _account(ctx, rec):
     cov = ctx.cov
     cfg = rec["cfg"]
+    cov.count("soc.bus_aw=%s" % cfg.get("bus_aw", 32))
+    cov.count("soc.csr_base_at_0=%s" % (cfg.get("csr_origin", 0) == 0))
     for k in ("bus", "bus_dw", "ic", "csr_dw", "paging", "ordering", "csr_aw"):
         cov.count("soc.%s=%s" % (k, cfg.get(k)))
     cov.count("soc.verdict." + str(rec["verdict"]))
@@ -178,19 +181,64 @@ def mode_c(ctx, plan, dis):
             raise RuntimeError("self-test: perturbed export answer not detected")
 
 
+def run_sweeps(ctx, plan, dis):
+    rng = random.Random(ctx.rng.getrandbits(48))
+    t0 = time.time()
+    with mp.get_context("fork").Pool(procs()) as pool:
+        sweeps = pool.map(L.sweep_case, [(rng.getrandbits(32),) for _ in range(plan["sweeps"])], chunksize=1)
+        verdicts = pool.map(L.verdict_case, [(rng.getrandbits(32),) for _ in range(plan["verdicts"])], chunksize=4)
+        irqs = pool.map(L.irq_case, [(rng.getrandbits(32),) for _ in range(plan["irqs"])], chunksize=2)
+    nl = 0
+    for c in irqs:
+        for a in c["alarms"]:
+            dis.append(Dis("oracle", c["input"], alarm="interrupt export: " + a))
+        nl += c["stats"].get("irq_lines", 0)
+        ctx.cov.count("irq.lines", c["stats"].get("irq_lines", 0))
+    ctx.cov.add_cases("interrupt numbers: SoCCore + stub CPU, event fired -> exported <NAME>_INTERRUPT line rises (oracle only)",
+                      len(irqs), len(irqs), False, mode="E2E")
+    ans = ctx.lean.call_batch([c["line"] for c in sweeps])
+    for c, a in zip(sweeps, ans):
+        if a != c["real"]:
+            ra, rr = set(a.split()), set(c["real"].split())
+            dis.append(Dis("correspondence", c["input"], c["line"][:300], " ".join(sorted(rr - ra))[:300] or "(subset)",
+                           " ".join(sorted(ra - rr))[:300] or "(subset)"))
+        ctx.cov.add_instance("CSRBankArray decode sweep: %s" % c["line"][:60], c["addresses"], c["addresses"],
+                             len(c["real"].split()) if c["real"] != "-" else 0, True, "A")
+    ans = ctx.lean.call_batch([c["line"] for c in verdicts])
+    nrej = 0
+    for c, a in zip(verdicts, ans):
+        ctx.cov.count("verdict." + c["real"])
+        nrej += c["real"] == "rejected"
+        if a != c["real"]:
+            dis.append(Dis("correspondence", c["input"], c["line"][:300], c["real"], a))
+            if c["real"] == "ok":
+                pass
+    ctx.cov.add_cases("build verdicts (page >= n_locs, page reused, bank larger than its page) against `accepts`",
+                      len(verdicts), nrej, False)
+    ctx.log("sweeps: %d bank arrays over all addresses, %d build verdicts (%d rejected), %.1fs" % (
+        len(sweeps), len(verdicts), nrej, time.time() - t0))
+
+
 def correspond(ctx):
     quick = ctx.tier == "quick"
     plan = QUICK if quick else THOROUGH
     dis = []
     run_corpus(ctx, dis)
     rng = random.Random(ctx.rng.getrandbits(48))
-    jobs = [(cfg, rng.getrandbits(32), plan["max_regs"]) for cfg in grid(rng)]
-    # slow builds (AXI) first so the pool stays busy
-    jobs.sort(key=lambda j: (j[0]["bus"] != "axi", j[0]["bus"] != "axi-lite"))
+    def cap(cfg):
+        # 8-bit CSR buses quadruple the sub-accesses (and the AXI converters are slow to simulate): sample registers
+        if plan["max_regs"] is not None and cfg["csr_dw"] == 8:
+            return 5 if cfg["bus"] != "wishbone" else 8
+        return plan["max_regs"]
+    jobs = [(cfg, rng.getrandbits(32), cap(cfg)) for cfg in grid(rng)]
     for _ in range(plan["random_socs"]):
-        jobs.append((L.gen_cfg(rng), rng.getrandbits(32), plan["max_regs"]))
+        cfg = L.gen_cfg(rng)
+        jobs.append((cfg, rng.getrandbits(32), cap(cfg)))
+    # slow simulations first so the pool stays busy
+    jobs.sort(key=lambda j: (j[0]["csr_dw"] != 8 or j[0]["bus"] == "wishbone", j[0]["bus"] != "axi", j[0]["bus"] != "axi-lite"))
     run_socs(ctx, jobs, dis, "end-to-end SoCs: every exported address accessed through the bus master")
     mode_c(ctx, plan, dis)
+    run_sweeps(ctx, plan, dis)
     ctx.rule = ("one case = one finalized SoC whose every exported address was accessed in simulation (plus its model "
                 "calls), one get_mem_data image, or one exporter run; non-trivial = at least one register write was "
                 "performed through an exported address (SoCs), every image/export case")
@@ -198,7 +246,8 @@ def correspond(ctx):
         "the C compiler's reading of csr.h is replaced by a Python evaluation of the emitted statement forms (c14lib.CHeader)",
         "the CPU is an extra bus master issuing aligned 32-bit accesses (wishbone sel / AXI strobes select the lane; "
         "AXI-Lite presents the bus-word address, AXI4 a narrow single beat)",
-        "IRQ numbers are not exercised (cpu_type=None SoCs have no interrupt controller)",
+        "interrupt numbers are checked end-to-end only (SoCCore around a harness-side stub CPU with 32 interrupt lines); "
+        "they have no Lean model (the export is the identity on SoCIRQHandler.locs, whose allocation is C13)",
         "CSR memories wider than the CSR bus word or deeper than a page (paged access) are outside the grid",
     ]
     tol = tolerated(ctx)
@@ -376,6 +425,10 @@ def replay(ctx, payload):
         if rec["verdict"] == "crash":
             print(rec.get("crash"))
         return 1 if bad or rec["verdict"] == "crash" else 0
+    if inp.get("kind") == "irq":
+        r = L.irq_case((inp["seed"],))
+        print("irqs:", r["irqs"], "alarms:", r["alarms"])
+        return 1 if r["alarms"] else 0
     if inp.get("kind") == "memimage":
         tmp = tempfile.mkdtemp(prefix="c14_")
         try:
